@@ -293,10 +293,18 @@ Definition p_close_delim (x : st) (i : input) : bool :=
 Definition p_abort_started (x : st) (i : input) : bool :=
   forallb (fun e => match e with EvAbort b => b | _ => true end) (evs x i).
 
+(** isolation, connection side: on an H2 frontend nothing a backend does to one
+    stream closes the shared connection, un-arms its timer or withdraws WRITABLE *)
+Definition p_isolation (x : st) (i : input) : bool :=
+  let c := snd x in let c' := snd (nxt x i) in
+  implb (backend_side i && c_h2 c && negb (c_closed c))
+        (negb (c_closed c') && implb (c_ftimer c) (c_ftimer c')
+         && implb (c_int_w c) (c_int_w c') && implb (c_ev_w c) (c_ev_w c') && Bool.eqb (c_h2 c) (c_h2 c')).
+
 Definition p_all (x : st) (i : input) : bool :=
   p_monitor x i && p_relay_clean x i && p_clean_source x i && p_truncated x i && p_timer x i
   && p_front_timeout x i && p_back_close x i && p_connect x i && p_budget x i && p_armed x i
-  && p_close_delim x i && p_abort_started x i.
+  && p_close_delim x i && p_abort_started x i && p_isolation x i.
 
 End WithRedirect.
 
@@ -390,7 +398,8 @@ Lemma split_p_all x i :
   p_monitor redir x i = true /\ p_relay_clean redir x i = true /\ p_clean_source redir x i = true /\
   p_truncated redir x i = true /\ p_timer redir x i = true /\ p_front_timeout redir x i = true /\
   p_back_close redir x i = true /\ p_connect redir x i = true /\ p_budget redir x i = true /\
-  p_armed redir x i = true /\ p_close_delim redir x i = true /\ p_abort_started redir x i = true.
+  p_armed redir x i = true /\ p_close_delim redir x i = true /\ p_abort_started redir x i = true /\
+  p_isolation redir x i = true.
 Proof.
   unfold p_all; intros H.
   repeat (apply andb_true_iff in H as [H ?]). repeat split; assumption.
@@ -468,7 +477,7 @@ Proof.
       set (y := run_st redir (fresh, init_conn h2) hist).
       assert (Hy : In y reach0) by (apply run_st_in_reach, init_in_reach).
       pose proof (local redir y i Hy) as L. apply split_p_all in L.
-      destruct L as (_ & _ & _ & _ & _ & _ & _ & _ & L & _ & _ & _).
+      destruct L as (_ & _ & _ & _ & _ & _ & _ & _ & L & _ & _ & _ & _).
       unfold p_budget in L. apply Nat.leb_le in L. exact L.
 Qed.
 
@@ -565,7 +574,7 @@ Proof.
   intros redir h2 history i b x Hin.
   assert (Hx : In x reach0) by (apply run_st_in_reach, init_in_reach).
   pose proof (local redir x i Hx) as L. apply split_p_all in L.
-  destruct L as (_ & _ & _ & _ & _ & _ & _ & _ & _ & _ & _ & L).
+  destruct L as (_ & _ & _ & _ & _ & _ & _ & _ & _ & _ & _ & L & _).
   unfold p_abort_started in L. rewrite forallb_forall in L. exact (L _ Hin).
 Qed.
 
@@ -583,7 +592,7 @@ Proof.
     set (y := run_st redir (fresh, init_conn h2) hist).
     assert (Hy : In y reach0) by (apply run_st_in_reach, init_in_reach).
     pose proof (local redir y i Hy) as L. apply split_p_all in L.
-    destruct L as (_ & _ & _ & _ & L1 & _ & _ & _ & _ & L2 & _ & _).
+    destruct L as (_ & _ & _ & _ & L1 & _ & _ & _ & _ & L2 & _ & _ & _).
     split.
     + intros Hc. unfold p_timer in L1. rewrite Hc in L1. exact L1.
     + intros Hc Hp Hm. unfold p_armed in L2. rewrite Hc, Hp, Hm in L2. cbn in L2.
@@ -599,7 +608,64 @@ Proof.
   intros redir h2 history i x Hr Hh Hk.
   assert (Hx : In x reach0) by (apply run_st_in_reach, init_in_reach).
   pose proof (local redir x i Hx) as L. apply split_p_all in L.
-  destruct L as (_ & _ & _ & _ & _ & _ & _ & _ & _ & _ & L & _).
+  destruct L as (_ & _ & _ & _ & _ & _ & _ & _ & _ & _ & L & _ & _).
   unfold p_close_delim, has_ev in L. rewrite Hr, Hh, Hk in L. cbn in L.
   apply andb_true_iff in L. exact L.
+Qed.
+
+(** the protocol of the frontend never changes along a run *)
+Definition p_h2 (redir : option N) (x : st) (i : input) : bool :=
+  Bool.eqb (c_h2 (snd x)) (c_h2 (snd (nxt redir x i))).
+Lemma reach_h2 : forall redir, check_all reach0 (p_h2 redir) = true.
+Proof. intros redir. vm_cast_no_check (eq_refl true). Qed.
+
+Lemma h2_constant redir h2 history :
+  c_h2 (snd (run_st redir (fresh, init_conn h2) history)) = h2.
+Proof.
+  induction history as [|i hist IH] using rev_ind; [reflexivity|].
+  rewrite run_st_app. cbn [run_st].
+  set (y := run_st redir (fresh, init_conn h2) hist) in *.
+  assert (Hy : In y reach0) by (apply run_st_in_reach, init_in_reach).
+  pose proof (check_all_spec _ _ (reach_h2 redir) y i Hy) as L.
+  unfold p_h2 in L. apply Bool.eqb_prop in L. rewrite <- L. exact IH.
+Qed.
+
+(** isolation: stream j has any history on an H2 connection; stream i's record
+    is arbitrary.  A backend-side input on j leaves i untouched, keeps the shared
+    connection open, its timer armed and WRITABLE where it was. *)
+Lemma isolation_proof :
+  forall (redir : option N) (history : list input) (si : stream) (i : input) (bti : bool),
+    let x := run_st redir (fresh, init_conn true) history in
+    let k := mkC2 (c_h2 (snd x)) (c_int_w (snd x)) (c_ev_w (snd x)) (c_ftimer (snd x)) (c_closed (snd x))
+                  bti (c_btimer (snd x)) in
+    backend_side i = true -> c_closed (snd x) = false ->
+    let '(si', sj', k', e) := step2 gen_tables redir si (fst x) k false i in
+    si' = si /\ k_bt1 k' = bti /\ k_h2 k' = true /\ k_closed k' = false /\
+    (k_ftimer k = true -> k_ftimer k' = true) /\
+    (k_int_w k = true -> k_int_w k' = true) /\ (k_ev_w k = true -> k_ev_w k' = true) /\
+    e = evs redir x i /\ sj' = fst (nxt redir x i).
+Proof.
+  intros redir history si i bti x k Hb Hc.
+  assert (Hx : In x reach0) by (apply run_st_in_reach, init_in_reach).
+  pose proof (local redir x i Hx) as L. apply split_p_all in L.
+  destruct L as (_ & _ & _ & _ & _ & _ & _ & _ & _ & _ & _ & _ & L).
+  unfold p_isolation in L. rewrite Hb, Hc in L.
+  assert (Hview : view k false = snd x).
+  { subst k. unfold view; cbn. destruct (snd x); reflexivity. }
+  unfold step2. rewrite Hview.
+  assert (Hsx : (fst x, snd x) = x) by (destruct x; reflexivity). rewrite Hsx.
+  unfold nxt, evs in *. fold T in *.
+  destruct (step T redir x i) as [[sj' c'] e] eqn:E. cbn [fst snd] in *.
+  (* the h2 flag of x *)
+  assert (Hh : c_h2 (snd x) = true) by (subst x; apply h2_constant).
+  rewrite Hh in L. cbn [andb negb implb] in L.
+  apply andb_true_iff in L as [L L5]. apply andb_true_iff in L as [L L4].
+  apply andb_true_iff in L as [L L3]. apply andb_true_iff in L as [L1 L2].
+  apply negb_true_iff in L1. apply Bool.eqb_prop in L5.
+  subst k; cbn [merge k_bt1 k_h2 k_closed k_ftimer k_int_w k_ev_w].
+  refine (conj eq_refl (conj eq_refl (conj _ (conj L1 (conj _ (conj _ (conj _ (conj eq_refl eq_refl)))))))).
+  - symmetry; exact L5.
+  - intros Ht. rewrite Ht in L2. exact L2.
+  - intros Ht. rewrite Ht in L3. exact L3.
+  - intros Ht. rewrite Ht in L4. exact L4.
 Qed.
